@@ -34,6 +34,19 @@ def floats_in(t):
     return out
 
 
+def f64_consts_in(t):
+    import struct
+    out = []
+    for s in subterms(t):
+        e = M(("const", "?p", "?bits"), s)
+        if e and e["?bits"] is not None and not str(e["?p"]).startswith(("core::num", "std::i64", "std::u32", "core::f64::<impl f64>::INFINITY")):
+            try:
+                out.append(struct.unpack("<d", struct.pack("<Q", int(e["?bits"])))[0])
+            except (struct.error, ValueError):
+                pass
+    return out
+
+
 def decimals_in(t):
     out = []
     for s in subterms(t):
@@ -84,7 +97,7 @@ def main(tier):
             if ev not in spec.POSTFIX_OPS[s][1]:
                 continue
             r, err = chain.postfix_chain(m, s)
-            lits = floats_in(r[1]) if r else []
+            lits = (floats_in(r[1]) + f64_consts_in(r[1])) if r else []
             lits = [x for x in lits if x not in (0.0,)]
             ok = False
             if r is not None and lits:
@@ -93,10 +106,11 @@ def main(tier):
                 ok = k is not None and abs(k - want) <= 1e-9 * want
                 # the product structure: left operand times the constant
                 t = r[1]
+                K = ("|", ("lit", "_", "f64"), ("const", "_", "_"))
                 if ev == "eval_f64":
-                    ok = ok and M(("Ok", ("op", "mul", "f64", ("ev", ("A0",)), ("lit", "_", "f64"))), t) is not None
+                    ok = ok and M(("Ok", ("op", "mul", "f64", ("ev", ("A0",)), K)), t) is not None
                 elif ev == "eval_complex":
-                    ok = ok and M(("Ok", ("call", "<Complex as ops::Mul>::mul", ("ev", ("A0",)), ("call", "Complex::new", ("lit", "_", "f64"), ("lit", "0.0", "f64")))), t) is not None
+                    ok = ok and M(("Ok", ("call", "<Complex as ops::Mul>::mul", ("ev", ("A0",)), ("call", "Complex::new", K, ("lit", "0.0", "f64")))), t) is not None
             run.ob(ok, "factor|%s|%s" % (ev, s), "C10 x° = x*pi/180 and x rad = x*180/pi (constant within 1e-9 relative)", where(m, "::parser::Parser::convert_token_to_node"), "constant(s) %s, expected %r" % (lits, want),
                    sample={"evaluator": ev, "postfix": s, "constant": lits[-1] if lits else None})
     # eval_number: library-backed functions have the f64 meaning on the operands' double values
